@@ -298,6 +298,181 @@ Qed.
 Definition cnt : fmt (list A) := {| enc := cnt_enc; dec := cnt_dec; wf := cnt_wf; rt := cnt_rt |}.
 End Cnt.
 
+(* ------------------------------------------------------------------ BCD timestamps (utils.Time2BCD / utils.BCD2Time) *)
+(* Text is a list of character codes.  Time2BCD: when the text contains ':' the characters '-', ':' and ' '
+   are removed and a 14-character result loses its first two; an odd length gets a leading '0'; then each pair
+   of characters c1 c2 becomes the byte ((c1-'0')<<4)|(c2-'0') in uint8 arithmetic. *)
+Definition is_sep (c : N) : bool := (c =? 45) || (c =? 58) || (c =? 32).
+Definition sub48 (c : N) : N := (c + 208) mod 256.
+Fixpoint bcd_pairs (l : list N) : list N :=
+  match l with
+  | a :: b :: t => N.lor ((sub48 a * 16) mod 256) (sub48 b) :: bcd_pairs t
+  | _ => []
+  end.
+Definition time2bcd (t : list N) : list N :=
+  let t1 := if existsb (N.eqb 58) t
+            then (let s := filter (fun c => negb (is_sep c)) t in if len s =? 14 then skipn 2 s else s)
+            else t in
+  let t2 := if N.odd (len t1) then 48 :: t1 else t1 in
+  bcd_pairs t2.
+
+(* BCD2Time: two characters per byte, (v>>4)+'0' and (v&15)+'0'; exactly six bytes are laid out as
+   "20YY-MM-DD hh:mm:ss" *)
+Definition bcd_chars (b : list N) : list N := flat_map (fun v => [v / 16 + 48; v mod 16 + 48]) b.
+Definition bcd2time (b : list N) : list N :=
+  match bcd_chars b with
+  | [a0; a1; a2; a3; a4; a5; a6; a7; a8; a9; a10; a11] =>
+      if len b =? 6 then [50; 48; a0; a1; 45; a2; a3; 45; a4; a5; 32; a6; a7; 58; a8; a9; 58; a10; a11]
+      else bcd_chars b
+  | r => r
+  end.
+
+Definition is_digit (c : N) : bool := (48 <=? c) && (c <=? 57).
+(* "20YY-MM-DD hh:mm:ss" with decimal digits: what a 6-byte BCD field can carry *)
+Definition time_ok (t : list N) : bool :=
+  match t with
+  | [c0; c1; y1; y2; s1; m1; m2; s2; d1; d2; s3; h1; h2; s4; i1; i2; s5; e1; e2] =>
+      (c0 =? 50) && (c1 =? 48) && (s1 =? 45) && (s2 =? 45) && (s3 =? 32) && (s4 =? 58) && (s5 =? 58) &&
+      forallb is_digit [y1; y2; m1; m2; d1; d2; h1; h2; i1; i2; e1; e2]
+  | _ => false
+  end.
+(* six bytes whose nibbles are decimal digits *)
+Definition bcd_byte_ok (v : N) : bool := (v / 16 <? 10) && (v mod 16 <? 10) && (v <? 256).
+Definition bcd6_ok (b : list N) : bool := (len b =? 6) && forallb bcd_byte_ok b.
+
+Lemma pair_digits_sweep :
+  forallb (fun a => forallb (fun b =>
+    negb (is_digit a && is_digit b) ||
+    (let v := N.lor ((sub48 a * 16) mod 256) (sub48 b) in
+     (v / 16 + 48 =? a) && (v mod 16 + 48 =? b) && bcd_byte_ok v)) (nrange 58)) (nrange 58) = true.
+Proof. vm_compute. reflexivity. Qed.
+
+Lemma pair_digits a b : is_digit a = true -> is_digit b = true ->
+  let v := N.lor ((sub48 a * 16) mod 256) (sub48 b) in
+  v / 16 + 48 = a /\ v mod 16 + 48 = b /\ bcd_byte_ok v = true.
+Proof.
+  intros Ha Hb. assert (a < 58 /\ b < 58) as [La Lb] by (unfold is_digit in *; lia).
+  pose proof (sweep 58 _ pair_digits_sweep a La) as H1. cbv beta in H1.
+  pose proof (sweep 58 _ H1 b Lb) as H2. cbv beta in H2. rewrite Ha, Hb in H2. cbn [andb negb orb] in H2.
+  cbv zeta in *. apply andb_true_iff in H2. destruct H2 as [H2 H3]. apply andb_true_iff in H2. destruct H2 as [H2 H4].
+  apply N.eqb_eq in H2, H4. auto.
+Qed.
+
+Lemma byte_digits_sweep :
+  forallb (fun v => negb (bcd_byte_ok v) ||
+    (is_digit (v / 16 + 48) && is_digit (v mod 16 + 48) &&
+     (N.lor ((sub48 (v / 16 + 48) * 16) mod 256) (sub48 (v mod 16 + 48)) =? v))) (nrange 256) = true.
+Proof. vm_compute. reflexivity. Qed.
+
+Lemma byte_digits v : bcd_byte_ok v = true ->
+  is_digit (v / 16 + 48) = true /\ is_digit (v mod 16 + 48) = true /\
+  N.lor ((sub48 (v / 16 + 48) * 16) mod 256) (sub48 (v mod 16 + 48)) = v.
+Proof.
+  intros H. assert (v < 256) as L by (unfold bcd_byte_ok in H; lia).
+  pose proof (byte_sweep _ byte_digits_sweep v L) as H1. cbv beta in H1. rewrite H in H1.
+  cbn [negb orb] in H1. apply andb_true_iff in H1. destruct H1 as [H1 H3]. apply andb_true_iff in H1. destruct H1 as [H1 H2].
+  apply N.eqb_eq in H3. auto.
+Qed.
+
+Lemma digit_not_sep c : is_digit c = true -> is_sep c = false /\ (58 =? c) = false.
+Proof. unfold is_digit, is_sep. lia. Qed.
+
+Lemma filter_keep {A} (p : A -> bool) x l : p x = true -> filter p (x :: l) = x :: filter p l.
+Proof. intros H. cbn [filter]. now rewrite H. Qed.
+Lemma filter_drop {A} (p : A -> bool) x l : p x = false -> filter p (x :: l) = filter p l.
+Proof. intros H. cbn [filter]. now rewrite H. Qed.
+
+Ltac time_destruct t H :=
+  do 19 (destruct t as [|? t]; [discriminate H|]); destruct t; [|discriminate H].
+
+Lemma time_ok_shape t : time_ok t = true -> exists y1 y2 m1 m2 d1 d2 h1 h2 i1 i2 e1 e2,
+  t = [50; 48; y1; y2; 45; m1; m2; 45; d1; d2; 32; h1; h2; 58; i1; i2; 58; e1; e2] /\
+  Forall (fun c => is_digit c = true) [y1; y2; m1; m2; d1; d2; h1; h2; i1; i2; e1; e2].
+Proof.
+  intros H. time_destruct t H. cbn [time_ok] in H.
+  repeat (apply andb_true_iff in H; destruct H as [H ?]).
+  repeat match goal with E : (_ =? _) = true |- _ => apply N.eqb_eq in E; subst end.
+  do 12 eexists. split; [reflexivity|].
+  match goal with E : forallb _ _ = true |- _ => rewrite forallb_forall in E; apply Forall_forall; exact E end.
+Qed.
+
+Lemma time2bcd_ok t : time_ok t = true ->
+  bcd2time (time2bcd t) = t /\ bcd6_ok (time2bcd t) = true.
+Proof.
+  intros H. destruct (time_ok_shape t H) as (y1 & y2 & m1 & m2 & d1 & d2 & h1 & h2 & i1 & i2 & e1 & e2 & -> & F).
+  repeat match goal with F : Forall _ (_ :: _) |- _ => inversion F as [|? ? ? F']; subst; clear F; rename F' into F end.
+  clear F.
+  assert (existsb (N.eqb 58)
+    [50; 48; y1; y2; 45; m1; m2; 45; d1; d2; 32; h1; h2; 58; i1; i2; 58; e1; e2] = true) as Ex.
+  { apply existsb_exists. exists 58. split; [|reflexivity]. do 13 right. left. reflexivity. }
+  unfold time2bcd. rewrite Ex.
+  repeat (first [ rewrite filter_drop by reflexivity
+                | rewrite filter_keep by (reflexivity || (apply negb_true_iff; apply digit_not_sep; assumption)) ]).
+  cbn [filter].
+  change (len [50; 48; y1; y2; m1; m2; d1; d2; h1; h2; i1; i2; e1; e2] =? 14) with true. cbv iota.
+  cbn [skipn].
+  change (N.odd (len [y1; y2; m1; m2; d1; d2; h1; h2; i1; i2; e1; e2])) with false. cbv iota.
+  cbn [bcd_pairs].
+  destruct (pair_digits y1 y2) as (A1 & A2 & A3); [assumption..|].
+  destruct (pair_digits m1 m2) as (B1 & B2 & B3); [assumption..|].
+  destruct (pair_digits d1 d2) as (C1 & C2 & C3); [assumption..|].
+  destruct (pair_digits h1 h2) as (D1 & D2 & D3); [assumption..|].
+  destruct (pair_digits i1 i2) as (E1 & E2 & E3); [assumption..|].
+  destruct (pair_digits e1 e2) as (G1 & G2 & G3); [assumption..|].
+  cbv zeta in *. split.
+  - unfold bcd2time, bcd_chars. cbn [flat_map app].
+    change (len [_; _; _; _; _; _] =? 6) with true. cbv iota.
+    rewrite A1, A2, B1, B2, C1, C2, D1, D2, E1, E2, G1, G2. reflexivity.
+  - unfold bcd6_ok. change (len [_; _; _; _; _; _] =? 6) with true. cbn [andb forallb].
+    rewrite A3, B3, C3, D3, E3, G3. reflexivity.
+Qed.
+
+Lemma bcd2time_ok b : bcd6_ok b = true -> time2bcd (bcd2time b) = b /\ time_ok (bcd2time b) = true.
+Proof.
+  unfold bcd6_ok. intros H. apply andb_true_iff in H. destruct H as [Hl Hb].
+  do 6 (destruct b as [|? b]; [discriminate Hl|]). destruct b; [|discriminate Hl].
+  cbn [forallb] in Hb. repeat (apply andb_true_iff in Hb; destruct Hb as [? Hb]). clear Hb Hl.
+  repeat match goal with E : bcd_byte_ok ?v = true |- _ =>
+    let A := fresh "A" in let B := fresh "B" in let C := fresh "C" in
+    destruct (byte_digits v E) as (A & B & C); clear E end.
+  assert (T : time_ok (bcd2time [n; n0; n1; n2; n3; n4]) = true).
+  { unfold bcd2time, bcd_chars. cbn [flat_map app]. change (len [_; _; _; _; _; _] =? 6) with true. cbv iota.
+    cbn [time_ok forallb]. rewrite !N.eqb_refl. cbn [andb].
+    repeat match goal with E : is_digit _ = true |- _ => rewrite E; clear E end. reflexivity. }
+  split; [|exact T].
+  destruct (time2bcd_ok _ T) as [_ _].
+  (* compute time2bcd on the laid-out text exactly as in time2bcd_ok *)
+  unfold bcd2time, bcd_chars. cbn [flat_map app]. change (len [_; _; _; _; _; _] =? 6) with true. cbv iota.
+  assert (Ex : forall l1 l2, existsb (N.eqb 58) (l1 ++ 58 :: l2) = true).
+  { intros l1 l2. apply existsb_exists. exists 58. split; [apply in_elt|reflexivity]. }
+  unfold time2bcd.
+  match goal with |- context[existsb (N.eqb 58) ?l] =>
+    replace (existsb (N.eqb 58) l) with true
+      by (symmetry; apply existsb_exists; exists 58; split; [do 13 right; left; reflexivity|reflexivity]) end.
+  repeat (first [ rewrite filter_drop by reflexivity
+                | rewrite filter_keep by (reflexivity || (apply negb_true_iff; apply digit_not_sep; assumption)) ]).
+  cbn [filter].
+  change (len [50; 48; _; _; _; _; _; _; _; _; _; _; _; _] =? 14) with true. cbv iota. cbn [skipn].
+  change (N.odd (len [_; _; _; _; _; _; _; _; _; _; _; _])) with false. cbv iota. cbn [bcd_pairs].
+  congruence.
+Qed.
+
+Definition bcd_time_dec (l : list N) : result (list N * list N) := '(b, r) <- take 6 l ;; Ok (bcd2time b, r).
+Lemma bcd_time_rt t rest : time_ok t = true -> bcd_time_dec (time2bcd t ++ rest) = Ok (t, rest).
+Proof.
+  intros H. destruct (time2bcd_ok t H) as [E L]. unfold bcd_time_dec.
+  rewrite take_app_n by (unfold bcd6_ok in L; lia). cbn [bind]. now rewrite E.
+Qed.
+Definition bcd_time : fmt (list N) :=
+  {| enc := time2bcd; dec := bcd_time_dec; wf := fun t => time_ok t = true; rt := bcd_time_rt |}.
+Global Instance fixed_bcd_time : fixed bcd_time 6.
+Proof.
+  split.
+  - intros t H. destruct (time2bcd_ok t H) as [_ L]. unfold bcd6_ok in L. cbn [enc bcd_time]. lia.
+  - intros l H. destruct (take_ok_len _ l H) as (a & r & E & Ha & Hr & _).
+    exists (bcd2time a), r. split; [|exact Hr]. cbn [dec bcd_time]. unfold bcd_time_dec. now rewrite E.
+Qed.
+
 (* ------------------------------------------------------------------ helpers for message-level proofs *)
 (* the decoder of a fixed format on the encoding of a well-formed value followed by anything *)
 Lemma dec_enc_app {A} (f : fmt A) a rest : wf f a -> dec f (enc f a ++ rest) = Ok (a, rest).
